@@ -73,6 +73,9 @@ func (in *Interp) jsonUnmarshal1(data Slice, tgt Iface) Value {
 		}
 		return Iface{}
 	}
+	if data.Seq == nil && len(data.A) == 0 {
+		return in.makeErrorString(mkStr("json: unexpected end of JSON input"))
+	}
 	// arbitrary bytes: either a syntax/type error, or some well-formed document of the target's shape
 	switch in.choose([]Term{in.freshBool("json.arbitrary.ok"), mkBool(true)}) {
 	case 0:
